@@ -241,15 +241,25 @@ pub fn encode_shpk(s: &ShpkSpec) -> Vec<u8> {
     // string heap
     let mut heap: Vec<u8> = vec![];
     let mut seen: std::collections::HashMap<String, u32> = std::collections::HashMap::new();
+    // names are addressed by (offset, length): a quarter of the packages store a name that is the front of an already
+    // stored one only once, another quarter store the names back to back without terminators
+    let packing = s.trailing % 4;
     let mut name_off = |n: &str, heap: &mut Vec<u8>| -> u32 {
         if s.dedup_names {
             if let Some(o) = seen.get(n) {
                 return *o;
             }
         }
+        if packing == 2 && !n.is_empty() {
+            if let Some((_, o)) = seen.iter().filter(|(k, _)| k.starts_with(n)).min_by_key(|(_, o)| **o) {
+                return *o;
+            }
+        }
         let o = heap.len() as u32;
         heap.extend_from_slice(n.as_bytes());
-        heap.push(0);
+        if packing != 3 {
+            heap.push(0);
+        }
         seen.insert(n.to_string(), o);
         o
     };
